@@ -41,7 +41,7 @@ RULE = ('exhaustive strata: every key assignment of <=2 (quick) / <=3 (thorough)
         'pivot; relabel_shift_in for every ordered key selection of <=2 of 4 columns on auto / named / hierarchical indices in every layout (thorough), each followed by '
         'relabel_shift_out of the new depths (round trip) and of other depth selections; set_index / set_index_hierarchy / unset_index on every column incl. repeated values '
         '(refusal); pivot_stack over flat / rectangular / ragged / depth-3 columns x every depth selection x 6 fill values, each followed by pivot_unstack of the new depths '
-        '(round trip); pivot_unstack over rectangular and ragged indices; random streams for joins (1-2 key fields from columns and/or index depths, auto / disjoint / '
+        '(round trip); pivot_unstack over rectangular and ragged indices; joins on 2 and 3 key fields with the columns stored in a permuted order and left_columns / right_columns named in permuted orders, independently per side, key columns over one shared domain (pairing is by NAME order, not position); random streams for joins (1-2 key fields from columns and/or index depths, auto / disjoint / '
         'overlapping / equal / hierarchical labels, fills of other types, 4 template pairs, composite_index_fill_value) and pivots (1-2 index / 0-2 column / 1-2 data fields, '
         'function maps). Malformed stream: absent keys, depth out of range, colliding output names, non-unique / non tree-ordered index requests. A case is non-trivial when '
         'both join sides have rows / a pivot pair repeats / a frame has >1 column; distinct = distinct JSON of the case description.')
@@ -470,6 +470,59 @@ def join_defaults(ctx):
         rcols = [[rng.choice('abd') for _ in range(nr)], [20 + i for i in range(nr)]]
         yield join_case(ctx, 'api:join-defaults', rng.choice(list(JT)), True, (('k', 'x'), lcols, None, None), (('kk', 'y'), rcols, None, rng.choice([None, list('wxyz')[:nr]])),
                         {'left_columns': 'k', 'right_columns': 'kk'}, NAN, ('{}', '{}'), defaults=True)
+
+
+def join_key_order(ctx):
+    '''Joins on 2 and 3 key fields where the i-th NAMED left key column must pair with the i-th NAMED right key column:
+    the columns are STORED in a permuted order, independently per side, and left_columns / right_columns are given in
+    orders that are permutations of the positional order, independently per side.  All key columns draw from the same
+    small domain, so pairing by position instead of by name loses real matches AND creates false ones.'''
+    rng = ctx.rng
+    exhaustive = ctx.tier != 'quick'
+    for nk in (2, 3):
+        knames = ['year', 'month', 'day'][:nk]
+        perms = list(itertools.permutations(range(nk)))
+        combos = list(itertools.product(perms, perms, perms, perms))     # storage L, storage R, named order L, named order R
+        if nk == 3 or not exhaustive:
+            combos = rng.sample(combos, ctx.n(16 if nk == 2 else 24, 200))
+        for sl, sr, ol, orr in combos:
+            for jt in JT:
+                nl, nr = rng.randint(2, 4), rng.randint(2, 4)
+                lrows = [[rng.choice((1, 2)) for _ in range(nk)] for _ in range(nl)]
+                # make sure some right rows really match a left row under the NAMED pairing (ol[i] <-> orr[i])
+                rrows = []
+                for _ in range(nr):
+                    if rng.random() < 0.6:
+                        src = rng.choice(lrows)
+                        row = [None] * nk
+                        for i in range(nk):
+                            row[orr[i]] = src[ol[i]]
+                        rrows.append(row)
+                    else:
+                        rrows.append([rng.choice((1, 2)) for _ in range(nk)])
+                # stored column order: key columns permuted, the data column at a random place
+                def stored(rows, perm, dname, base, n):
+                    names = [knames[k] for k in perm]
+                    cols = [[r[k] for r in rows] for k in perm]
+                    at = rng.randint(0, nk)
+                    names.insert(at, dname)
+                    cols.insert(at, [base + i for i in range(n)])
+                    return names, cols
+                lnames, lcols = stored(lrows, sl, 'x', 100, nl)
+                rnames, rcols = stored(rrows, sr, 'y', 200, nr)
+                kw = {'left_columns': [knames[k] for k in ol], 'right_columns': [knames[k] for k in orr]}
+                composite = rng.random() < 0.8
+                llay = pick_layout(rng, [col_array(c).dtype for c in lcols])
+                rlay = pick_layout(rng, [col_array(c).dtype for c in rcols])
+                positional_l = [lnames.index(k) for k in kw['left_columns']]
+                positional_r = [rnames.index(k) for k in kw['right_columns']]
+                ctx.count(f'join:keyorder:nk={nk}',
+                          'join:keyorder:named-order-differs-from-position' if positional_l != sorted(positional_l) or positional_r != sorted(positional_r)
+                          else 'join:keyorder:named-order-is-positional',
+                          'join:keyorder:sides-permuted-differently' if [sorted(positional_l).index(p) for p in positional_l] != [sorted(positional_r).index(p) for p in positional_r]
+                          else 'join:keyorder:sides-permuted-alike')
+                yield join_case(ctx, 'api:join-key-order', jt, composite, (tuple(lnames), lcols, llay, None),
+                                (tuple(rnames), rcols, rlay, rng.choice([None, list('wxyz')[:nr]])), kw, rng.choice([None, -1, NAN]), ('L{}', 'R{}'))
 
 
 def join_layouts(ctx):
@@ -1087,6 +1140,7 @@ def cases(ctx):
     yield from join_exhaustive(ctx)
     yield from join_layouts(ctx)
     yield from join_defaults(ctx)
+    yield from join_key_order(ctx)
     yield from join_random(ctx)
     yield from shift_cases(ctx)
     yield from set_index_cases(ctx)
